@@ -116,30 +116,40 @@ impl State for S {
                 let path = d.join("db");
                 let t0 = std::time::SystemTime::now().duration_since(std::time::UNIX_EPOCH).unwrap().as_millis() + 250;
                 let exe = std::env::current_exe().unwrap();
-                let kids: Vec<_> = (0..n)
+                let mut kids: Vec<_> = (0..n)
                     .filter_map(|_| {
                         Command::new(&exe)
                             .args(["child", "handles", "openhold"])
                             .arg(&path)
                             .arg(t0.to_string())
-                            .stdin(Stdio::null())
+                            .stdin(Stdio::piped())
                             .stdout(Stdio::piped())
                             .stderr(Stdio::null())
                             .spawn()
                             .ok()
                     })
                     .collect();
+                // every child answers right after its attempt and then HOLDS its handle until we close its stdin:
+                // all attempts overlap with all holds, however late a child gets scheduled
                 let mut ok = 0;
                 let mut other = 0;
-                for k in kids {
-                    match k.wait_with_output() {
-                        Ok(o) => match String::from_utf8_lossy(&o.stdout).trim() {
-                            "ok" => ok += 1,
-                            "busy" => {}
-                            _ => other += 1,
-                        },
-                        Err(_) => other += 1,
+                for k in kids.iter_mut() {
+                    let mut line = String::new();
+                    let got = k.stdout.as_mut().map(|o| {
+                        use std::io::BufRead;
+                        std::io::BufReader::new(o).read_line(&mut line)
+                    });
+                    match (got, line.trim()) {
+                        (Some(Ok(_)), "ok") => ok += 1,
+                        (Some(Ok(_)), "busy") => {}
+                        _ => other += 1,
                     }
+                }
+                for k in kids.iter_mut() {
+                    drop(k.stdin.take());
+                }
+                for mut k in kids {
+                    let _ = k.wait();
                 }
                 if other > 0 { format!("{} | other:{}", ok, other) } else { ok.to_string() }
             }
@@ -178,8 +188,14 @@ fn child(args: &[String]) -> i32 {
                 std::hint::spin_loop();
             }
             let (s, db) = open_outcome(std::path::Path::new(path));
-            std::thread::sleep(std::time::Duration::from_millis(400));
             println!("{}", s);
+            {
+                use std::io::Write;
+                let _ = std::io::stdout().flush();
+            }
+            // hold the handle until the parent closes our stdin (it does so after every child has answered)
+            let mut sink = String::new();
+            let _ = std::io::Read::read_to_string(&mut std::io::stdin(), &mut sink);
             drop(db);
             0
         }
